@@ -6,7 +6,8 @@ from translate import t1_regex
 
 PID = 'C07'
 CONE = ['Regex.v', 'RegexFacts.v', 'RegexCost.v', 'gen/RegexGen.v']
-BASE_CHARS = ['\\', '"', "'", ' ', '\r', '\n', '\f', '\t', '/', '*', 'a', 'f', '0', '9', '-', ',', '(', ')', 'n', '|', ']', '=', ':', 'z', '.', '+']
+BASE_CHARS = ['\\', '"', "'", ' ', '\r', '\n', '\f', '\t', '/', '*', 'a', 'f', '0', '9', '-', ',', '(', ')', 'n', '|', ']', '=', ':', 'z', '.', '+',
+              '\xe9', '\u0434', '\u65e5', '\u0663', '_', '\x80', '\U0001F600']      # non-ASCII letters / digits / symbols, underscore
 PREFIXES = ['', '[a="', "[a='", ':lang(', ':lang("', ':nth-child(', ':nth-child(2n', '/*', '"', "'", '[a', '[a=', ':x(', '\\', ':-soup-contains(',
             ':-soup-contains("', '#', 'a', ':', '[', 'a ', ':--', ':is(', '2n', 'x', '5']
 
@@ -85,6 +86,11 @@ def run(tier, seed):
     for (name, p, s, i), mo in zip(meta, outs):
         m = p.match(s, i)
         real = None if m is None else (m.end(), sorted((g, m.start(g), m.end(g)) for g in range(1, p.groups + 1) if m.start(g) >= 0))
+        if lib.is_err(mo):
+            nb += 1
+            if nb <= 2:
+                ck.broken.append('regex model unavailable')
+            continue
         if mo == 'none':
             model = None
         else:
@@ -143,30 +149,63 @@ def run(tier, seed):
         for pre in prefs:
             for w in pumps:
                 cands.append((name, pre, w))
-    # the search aid must agree with the extracted model where both are cheap: #ends <= work on small subjects
-    chk = rnd.sample(cands, 300)
-    e_ = drv.run([(f'(endscount_re {dyn[n][1]} 0 {s_str(p + w * 2)})' if n in dyn else f'(endscount {n} 0 {s_str(p + w * 2)})') for n, p, w in chk])
-    w_ = drv.run([req(n, p + w * 2) for n, p, w in chk])
-    if any(int(a) > int(b) for a, b in zip(e_, w_) if not isinstance(a, list) and not isinstance(b, list)):
-        ck.broken.append('search aid work_count disagrees with Regex.ends (more ends than search steps)')
-    # staged: work (size of the full backtracking tree) after 6, 12, 18 pumps; constant growth ratio = exponential
-    w6 = [int(x) for x in drv.run([req(n, p + w * 6) for n, p, w in cands], shards=16)]
-    stage2 = [i for i, c in enumerate(w6) if c >= 40]
-    w12 = dict(zip(stage2, [int(x) for x in drv.run([req(cands[i][0], cands[i][1] + cands[i][2] * 12) for i in stage2], shards=16)]))
-    stage3 = [i for i in stage2 if w12[i] < CAP and w12[i] >= 3 * w6[i]]
-    w18 = dict(zip(stage3, [int(x) for x in drv.run([req(cands[i][0], cands[i][1] + cands[i][2] * 18) for i in stage3], shards=16)]))
     suspects = []
-    for i, (name, pre, w) in enumerate(cands):
-        ck.count(('amb', name, w6[i] > 200))
-        if w6[i] >= CAP or (i in w12 and w12[i] >= CAP):
-            suspects.append((10 ** 9, name, pre, w))
-        elif i in w18:
-            r1, r2 = w12[i] / max(w6[i], 1), w18[i] / max(w12[i], 1)
-            if w18[i] >= CAP or (r2 >= 3.2 and r2 >= 0.75 * r1 and w18[i] >= 3000):
-                suspects.append((w18[i], name, pre, w))
-    ck.notes['ambiguity_candidates'] = len(cands)
-    suspects.sort(reverse=True)
-    ck.notes['model_suspects'] = [[n, p, w, c] for c, n, p, w in suspects[:5]]
+    if lib.DRIVER_OK:
+        # the search aid must agree with the extracted model where both are cheap: #ends <= work on small subjects
+        chk = rnd.sample(cands, 300)
+        e_ = drv.run([(f'(endscount_re {dyn[n][1]} 0 {s_str(p + w * 2)})' if n in dyn else f'(endscount {n} 0 {s_str(p + w * 2)})') for n, p, w in chk])
+        w_ = drv.run([req(n, p + w * 2) for n, p, w in chk])
+        if any(int(a) > int(b) for a, b in zip(e_, w_) if not isinstance(a, list) and not isinstance(b, list)):
+            ck.broken.append('search aid work_count disagrees with Regex.ends (more ends than search steps)')
+        # staged: work (size of the full backtracking tree) after 6, 12, 18 pumps; constant growth ratio = exponential
+        w6 = [int(x) for x in drv.run([req(n, p + w * 6) for n, p, w in cands], shards=16)]
+        stage2 = [i for i, c in enumerate(w6) if c >= 40]
+        w12 = dict(zip(stage2, [int(x) for x in drv.run([req(cands[i][0], cands[i][1] + cands[i][2] * 12) for i in stage2], shards=16)]))
+        stage3 = [i for i in stage2 if w12[i] < CAP and w12[i] >= 3 * w6[i]]
+        w18 = dict(zip(stage3, [int(x) for x in drv.run([req(cands[i][0], cands[i][1] + cands[i][2] * 18) for i in stage3], shards=16)]))
+        suspects = []
+        for i, (name, pre, w) in enumerate(cands):
+            ck.count(('amb', name, w6[i] > 200))
+            if w6[i] >= CAP or (i in w12 and w12[i] >= CAP):
+                suspects.append((10 ** 9, name, pre, w))
+            elif i in w18:
+                r1, r2 = w12[i] / max(w6[i], 1), w18[i] / max(w12[i], 1)
+                if w18[i] >= CAP or (r2 >= 3.2 and r2 >= 0.75 * r1 and w18[i] >= 3000):
+                    suspects.append((w18[i], name, pre, w))
+        ck.notes['ambiguity_candidates'] = len(cands)
+        suspects.sort(reverse=True)
+        ck.notes['model_suspects'] = [[n, p, w, c] for c, n, p, w in suspects[:5]]
+    else:
+        # the model is unavailable: probe the LIVE pattern objects directly (the regex engine polls for signals, so a runaway match
+        # is cut off by an alarm); the slowest candidates are then confirmed by the growth test below like the model's suspects
+        import signal
+
+        class _Slow(Exception):
+            pass
+
+        def _alarm(*_a):
+            raise _Slow()
+        old_h = signal.signal(signal.SIGALRM, _alarm)
+        slow = []
+        for name, pre, w in cands:
+            pobj = dyn[name][0] if name in dyn else pats[name]
+            for subj in (pre + w * 22 + '\x00', w * 22 + '\x00'):
+                t0 = time.time()
+                signal.setitimer(signal.ITIMER_REAL, 0.5)
+                try:
+                    pobj.match(subj)
+                except _Slow:
+                    pass
+                finally:
+                    signal.setitimer(signal.ITIMER_REAL, 0)
+                dt = time.time() - t0
+                if dt > 0.05:
+                    slow.append((dt, name, pre, w))
+                    break
+        signal.signal(signal.SIGALRM, old_h)
+        slow.sort(reverse=True)
+        suspects = [(int(dt * 1e6), name, pre, w) for dt, name, pre, w in slow[:12]]
+        ck.notes['live_probe_suspects'] = [[n_, p_, w_, round(dt, 3)] for dt, n_, p_, w_ in slow[:5]]
     # ---- confirm on the real engine: time grows exponentially with the number of pumps
     seen = set()
     for cnt, name, pre, w in suspects[:6]:
